@@ -70,10 +70,18 @@ structure SIter where
   consumed : Nat
 deriving Repr
 
+structure SFind where
+  h : Nat
+  pat : List Int
+  back : Bool
+  consumed : Nat
+deriving Repr
+
 structure SSt where
   handles : Array SH
   iters : Array SIter
   seqs : Array Nat
+  finds : Array SFind := #[]
   /-- highest position delivered or asked about so far (C06 bound) -/
   reach : Int := -1
 
@@ -495,6 +503,30 @@ def specStmt (v : String) (sd : SD) (st : SSt) (s : Stmt) (res : String) : Strin
           -- Fwrite first determines the end of the sequence (it must traverse to the end)
           (checkFault want res mode k, bump st top)
         | _ => (if res == hexOf want then "ok" else fail "Swrite" res (hexOf want), bump st top)
+  | .mkf h pat back =>
+    match hOf h with
+    | none => ("FAIL bad handle", st)
+    | some sh =>
+      if res == "na" then
+        (if back ∧ isV3 ∧ sh.bounded then fail "FindR availability" res "bounded value must assert to FiniteSequence" else "ok", st)
+      else if res == "ok" then ("ok", { st with finds := st.finds.push ⟨h, pat, back, 0⟩ })
+      else (fail "search iterator creation" res "ok", st)
+  | .nxf it n =>
+    match st.finds[it]? with
+    | none => (if res == "na" then "ok" else fail "search iterator" res "na", st)
+    | some sf =>
+      match hOf sf.h with
+      | none => ("FAIL bad handle", st)
+      | some sh =>
+        let fin := winFinite sd sh.win
+        let occ := occIn sd sh.win sf.pat (if fin then maxTake else (match sd.depth with | some k => k | none => 12000))
+        if !fin ∧ (sf.back ∨ occ.length < sf.consumed + n.toNat) then ("ok", st) else
+        let base := if sf.back then occ.reverse else occ
+        let avail := (base.drop sf.consumed).take n.toNat
+        let xs : List Int := avail.map (fun (x : Nat) => (x : Int)) ++ List.replicate (n.toNat - avail.length) (-1)
+        let st' := { st with finds := st.finds.set! it { sf with consumed := sf.consumed + avail.length } }
+        let top : Int := match upper sd.len sh.win with | some u => u | none => 0
+        (if res == showInts xs then "ok" else fail "live search iterator (other searches were created and run in between)" res (showInts xs), bump st' top)
   | .cons =>
     if res == "na" then ("ok", st) else
     match (res.splitOn "/").map String.toNat? with
@@ -534,7 +566,7 @@ def specScriptLine (v desc stmts : String) (raw : String) : String :=
           | .test f r _ => r.isEmpty || (f.isEmpty && r.isEmpty)
           | .gen l _ _ first => l == 0 || (match first with | some f => !(decide (1 ≤ f ∧ f ≤ 9)) | none => false)
           | .sqrt a _ | .cube a _ | .rat a _ => a == 0
-        let st0 : SSt := ⟨#[⟨{}, if v == "v3" then baseBounded else false⟩], #[], #[], if sd.eagerFirst && !sd.isZero then 0 else -1⟩
+        let st0 : SSt := { handles := #[⟨{}, if v == "v3" then baseBounded else false⟩], iters := #[], seqs := #[], reach := if sd.eagerFirst && !sd.isZero then 0 else -1 }
         let rec go : List Stmt → List String → SSt → Nat → String
           | [], _, _, _ => "ok"
           | _ :: _, [], _, i => s!"FAIL statement {i} has no result"
